@@ -17,7 +17,7 @@ from ..gen import typing as T
 PROPERTY = 'C07'
 RULE = ('(a) 60 value providers (variables, literals, shrinkable and non-shrinkable arithmetic, const scalars, casts, elements, calls, arrays, '
         'array literals) x 12 target types x 8 positions (argument, declaration, const declaration, assignment, element assignment, return, '
-        'literal element); every operator / cast / ?? / index / length / VLA-length operand typing; (b) 125 single-rule ill-typing mutations and 43 return-path shapes (25 whose end is reachable, 18 closed counterparts); '
+        'literal element); every operator / cast / ?? / index / length / VLA-length operand typing; (b) 125 single-rule ill-typing mutations and 43 return-path shapes (25 whose end is reachable, 18 closed counterparts); (b2) every provider x target type x position again under no-op spellings (parentheses, cast to its own type): same verdict; '
         '(c) overload sets of 1-4 signatures over 9 parameter types in every declaration order, called with every provider; '
         'non-trivial = every case (distinct rule x position); distinct by tag')
 ASSUMPTIONS = ['expected accept/reject is my implementation of README "Types" / "Arrays and strings" / "The speculation operator"; cases the '
@@ -31,6 +31,7 @@ def plan(tier, seed):
     specs += [{'kind': 'operators', 'part': i, 'parts': 4} for i in range(4)]
     specs.append({'kind': 'mutations'})
     specs.append({'kind': 'returns'})
+    specs += [{'kind': 'spellings', 'part': i, 'parts': 4} for i in range(4)]
     n = 4 if tier == 'quick' else 16
     for j in range(n):
         specs.append({'kind': 'overloads', 'seed': seed * 1000 + j, 'count': 60 if tier == 'quick' else 200})
@@ -93,6 +94,25 @@ def run_shard(spec):
             if src is None or i % spec['parts'] != spec['part']:
                 continue
             judge(res, tag, src, exp)
+        res['exhaustive'] = True
+    elif k == 'spellings':
+        cache = {}
+        for i, (tag, plain, variant) in enumerate(T.spelling_variants()):
+            if i % spec['parts'] != spec['part']:
+                continue
+            res['evaluations'] += 1
+            if plain not in cache:
+                cache[plain] = verdict(plain)
+            v0, m0 = cache[plain]
+            v1, m1 = verdict(variant)
+            res['nontrivial'].append(runner.case_id(tag))
+            if 'internal' in (v0, v1):
+                runner.fail(res, 'M-EXC', f'{tag}: {m0 if v0 == "internal" else m1}', {'source': variant, 'rule': tag})
+            elif v0 != v1:
+                runner.fail(res, 'M-TYPE', f'{tag}: acceptance depends on a spelling that changes neither value nor type: plain form {v0}, variant {v1} ({m1 or m0})',
+                            {'source': variant, 'plain': plain, 'rule': tag}, expected=v0, observed=v1)
+            else:
+                runner.count(res, 'spelling_pairs_' + v0)
         res['exhaustive'] = True
     elif k == 'returns':
         for tag, src, exp in T.return_cases():
